@@ -21,9 +21,9 @@ structure Header where
   values : List Val
   deriving DecidableEq, Repr, Inhabited
 
-/-- an abstract protobuf message packed in an `Any`: type tag and content -/
+/-- an abstract protobuf message packed in an `Any`: message type name and content -/
 structure Msg where
-  tag : Nat
+  tag : String
   data : List UInt8
   deriving DecidableEq, Repr, Inhabited
 
